@@ -94,7 +94,9 @@ class Att:
 
 def sanitise(answer_label, remaining):
     """The delay the statement of C05 requires for a strategy answer (label from the menu)."""
-    if isinstance(answer_label, str):
+    if isinstance(answer_label, str) and answer_label.startswith("int:"):
+        v = float(int(answer_label[4:]))      # an int answer, in seconds
+    elif isinstance(answer_label, str):
         v = {"nan": math.nan, "inf": math.inf, "-inf": -math.inf}.get(answer_label, 0.0)
     else:
         v = answer_label * TAU
